@@ -641,7 +641,7 @@ pub fn adjust_commit(w: &mut World, _p: usize, _g: usize, spec: &mut CommitSpec)
     if w.cfg.knob("templates").is_some() && w.prng.chance(1, 5) {
         // (two by-value PSK proposals for the same external id get different nonces, hence different
         // PreSharedKeyIDs: that is valid, so it is not a template; the forger covers the identical-id case)
-        let t = *w.prng.pick(&[1u8, 2, 4, 5, 8, 9, 10, 11]);
+        let t = *w.prng.pick(&[1u8, 2, 4, 5, 8, 9, 10, 11, 12, 12]);
         let q = if t == 8 { w.parties.len() - 1 } else { w.prng.usize_below(w.parties.len()) };
         spec.templates.push((t, q));
     }
@@ -731,7 +731,7 @@ pub fn prop_spec_override(
         }
     }
     if w.cfg.knob("templates").is_some() && w.prng.chance(1, 6) {
-        let t = *w.prng.pick(&[8u8, 4, 10, 11]);
+        let t = *w.prng.pick(&[8u8, 4, 10, 11, 12]);
         let q = if t == 8 { w.parties.len() - 1 } else { w.prng.usize_below(w.parties.len()) };
         return Some(PropSpec::Template { t, q });
     }
